@@ -319,9 +319,14 @@ structure Prep2 (α : Type) where
   st : St2 α
   gradv : Grid2 (α × α)
 
-/-- everything `fteik2d` does before `for _ in range(nsweep)`; `nzc`, `nxc` = cells -/
-def prepare2 (big : α) (slow : Grid2 α) (nzc nxc : Nat) (dz dx zsrc xsrc : α) (grad : Bool) :
-    Except Err (Prep2 α) :=
+/-- source handling of `fteik2d` that does not depend on `grad`: domain check, conversion to grid
+units, source cell, `vzero`, classification (`iflag`), sweep constants -/
+structure Setup2 (α : Type) where
+  par : Par2 α
+  iflag : Nat
+
+/-- `nzc`, `nxc` = number of cells (shape of `slow`) -/
+def setup2 (big : α) (slow : Grid2 α) (nzc nxc : Nat) (dz dx zsrc xsrc : α) : Except Err (Setup2 α) :=
   let condz := le zero zsrc && le zsrc (dz * ofInt nzc)
   let condx := le zero xsrc && le xsrc (dx * ofInt nxc)
   if !(condz && condx) then .error .sourceOutOfBound else
@@ -332,22 +337,30 @@ def prepare2 (big : α) (slow : Grid2 α) (nzc nxc : Nat) (dz dx zsrc xsrc : α)
   let zsi : Int := min (trunc zsa) (Int.ofNat nzc - 1)
   let xsi : Int := min (trunc xsa) (Int.ofNat nxc - 1)
   let vzero := slow.get zero zsi.toNat xsi.toNat
-  let nz := nzc + 1
-  let nx := nxc + 1
-  let tt : Grid2 α := Grid2.full nz nx big
-  let gradv : Grid2 (α × α) := if grad then Grid2.full nz nx (zero, zero) else #[]
-  let sgn : Grid2 (Int × Int) := if grad then Grid2.full nz nx (0, 0) else #[]
   let c := classifySource zsa xsa zsi xsi
   let dzi := one / dz
   let dxi := one / dx
-  let p : Par2 α := { dz, dx, dzi, dxi, dz2i := dzi / dz, dx2i := dxi / dx, zsi, xsi,
-                      zsa := c.zsa, xsa := c.xsa, vzero, big, nz, nx }
-  if c.iflag == 2 then
-    let s0 : Init2 α := { tt, sgn, gradv, td := Array.replicate (max nz nx) big }
-    let s := initOffGrid p slow grad zsi.toNat xsi.toNat s0
-    .ok { par := p, st := { tt := s.tt, sgn := s.sgn }, gradv := s.gradv }
+  .ok { par := { dz, dx, dzi, dxi, dz2i := dzi / dz, dx2i := dxi / dx, zsi, xsi,
+                 zsa := c.zsa, xsa := c.xsa, vzero, big, nz := nzc + 1, nx := nxc + 1 },
+        iflag := c.iflag }
+
+/-- allocation of the work arrays and initialisation around the source -/
+def initState2 (su : Setup2 α) (slow : Grid2 α) (grad : Bool) : Prep2 α :=
+  let p := su.par
+  let tt : Grid2 α := Grid2.full p.nz p.nx p.big
+  let gradv : Grid2 (α × α) := if grad then Grid2.full p.nz p.nx (zero, zero) else #[]
+  let sgn : Grid2 (Int × Int) := if grad then Grid2.full p.nz p.nx (0, 0) else #[]
+  if su.iflag == 2 then
+    let s0 : Init2 α := { tt, sgn, gradv, td := Array.replicate (max p.nz p.nx) p.big }
+    let s := initOffGrid p slow grad p.zsi.toNat p.xsi.toNat s0
+    { par := p, st := { tt := s.tt, sgn := s.sgn }, gradv := s.gradv }
   else
-    .ok { par := p, st := { tt := tt.set (trunc c.zsa).toNat (trunc c.xsa).toNat zero, sgn }, gradv }
+    { par := p, st := { tt := tt.set (trunc p.zsa).toNat (trunc p.xsa).toNat zero, sgn }, gradv }
+
+/-- everything `fteik2d` does before `for _ in range(nsweep)` -/
+def prepare2 (big : α) (slow : Grid2 α) (nzc nxc : Nat) (dz dx zsrc xsrc : α) (grad : Bool) :
+    Except Err (Prep2 α) :=
+  (setup2 big slow nzc nxc dz dx zsrc xsrc).map fun su => initState2 su slow grad
 
 /-- the gradient assembly loop -/
 def assembleGrad2 (p : Par2 α) (tt : Grid2 α) (sgn : Grid2 (Int × Int)) (gradv : Grid2 (α × α)) :
